@@ -253,6 +253,7 @@ pub fn handle_with(mut rq: Request, prog: &Prog, nonce: &str, client_len: usize,
         Finish::Drop => "drop",
         Finish::Panic => "panic",
         Finish::WriterUnused => "writer-unused",
+        Finish::WriterPanic => "writer-panic",
         Finish::RespondFailing { .. } => "respond-failing",
     }
     .to_string();
@@ -264,7 +265,23 @@ pub fn handle_with(mut rq: Request, prog: &Prog, nonce: &str, client_len: usize,
     before_finish();
     match &prog.finish {
         Finish::Respond { status, body_len, declared, threshold } => {
-            let r = rq.respond(build_response(id, *status, *body_len, *declared, *threshold));
+            // the builder chain varies with the request id (typed, boxed after the threshold was
+            // set, threshold set on the boxed response, body replaced through with_data)
+            let r = match id % 4 {
+                1 => rq.respond(build_response(id, *status, *body_len, *declared, *threshold).boxed()),
+                2 => {
+                    let mut b = build_response(id, *status, *body_len, *declared, None).boxed();
+                    if let Some(t) = threshold {
+                        b = b.with_chunked_threshold(*t);
+                    }
+                    rq.respond(b)
+                }
+                3 => {
+                    let b = build_response(id, *status, 3, true, *threshold);
+                    rq.respond(b.with_data(std::io::Cursor::new(resp_body(id, *body_len)), if *declared { Some(*body_len) } else { None }))
+                }
+                _ => rq.respond(build_response(id, *status, *body_len, *declared, *threshold)),
+            };
             if let Err(e) = r {
                 sink.lock().unwrap()[slot].respond_err = Some(format!("{:?}: {}", e.kind(), e));
             }
@@ -383,6 +400,10 @@ pub fn handle_with(mut rq: Request, prog: &Prog, nonce: &str, client_len: usize,
         Finish::WriterUnused => {
             let w = rq.into_writer();
             drop(w);
+        }
+        Finish::WriterPanic => {
+            let _w = rq.into_writer();
+            std::panic::panic_any(vcore::panics::HarnessPanic);
         }
         Finish::Panic => {
             let _hold = rq;
